@@ -13,7 +13,7 @@ H("c19_views", "C19", "seq", ["harness/c19_views.cc"], sdk=C19_SDK,
        "streams at a pull reader are exactly those shaped by each matching view plus the default stream of every unmatched instrument (name, description, unit, point kind, attribute keys)",
   design_ref="5/C19")
 H("c19_scopes", "C19", "seq", ["harness/c19_scopes.cc"], sdk=C19_SDK,
-  args={"quick": ["--rules=3"], "thorough": []},
+  args={"quick": ["--rules=4"], "thorough": ["--rules=5"]},
   what="real TracerProvider / MeterProvider / LoggerProvider with a ScopeConfigurator built from every rule list up to the length bound over {name-equals x, name-equals y, "
        "custom matcher on the version, custom matcher on an attribute} x {enable, disable} with both defaults; four scope identities emit one span / measurement / log record "
        "each into harness exporters (simple processors, pull reader); oracle: exactly the scopes enabled by the first matching rule (else the default) arrive, once, with their own "
